@@ -155,6 +155,8 @@ pub enum Susp {
     SelfWake,
     /// store the waker, schedule a wake after this many virtual ns, Pending
     Deferred(u64),
+    /// the call never completes (hung I/O): Pending, and no wake is ever scheduled
+    Forever,
 }
 
 /// What the n-th user-function invocation of a task instance does besides
